@@ -692,6 +692,13 @@ def run(rep):
     if not cq["ok"]:
         rep.violation("proof", {"theorem": cq["failed_theorem"], "log": cq["log"][-3000:]},
                       "proof obligation %s no longer checks" % cq["failed_theorem"], True)
+    if tier == "thorough" and cq["ok"]:
+        rc, o, e = common.sh(["coqchk", "-silent", "-o", "-Q", ".", "Cb", "Cb.C05.Properties_C05"], cwd=common.COQ, timeout=1200)
+        txt = o + e
+        ax = re.search(r"\* Axioms:\s*(.*?)\n\s*\n", txt, re.S)
+        rep.coverage["coqchk"] = {"rc": rc, "axioms": ax.group(1).strip() if ax else "?"}
+        if rc != 0:
+            rep.violation("coqchk", {"log": txt[-3000:]}, "coqchk rejects the compiled C05 development", True)
     common.ensure_model(PROP)
     leaf = common.build_leaf("c05_flat", ["src/common/debug_impl.cpp", "src/common/debug_messages.cpp"])
     impl = common.build_impl("plain")
